@@ -7,7 +7,7 @@ Ops (matrices in the `QJson` dyadic encoding, rationals as `[num, den]` or an in
 
 * `c12_ppt_primal {"dA":·,"dB":·,"sys":·,"rho":[mat…],"p":[rat…],"M":[mat…],"LM":[mat…],"LT":[mat…]}`
 * `c12_ppt_dual   {"dA":·,"dB":·,"sys":·,"rho":[mat…],"p":[rat…],"Y":mat,"Q":[mat…],"LQ":[mat…],"LS":[mat…]}`
-* `c12_ptranspose {"dA":·,"dB":·,"sys":·,"X":mat}` → `{"e":0,"num":…}`: not needed by the checkers; returns the
+* `c12_ptranspose {"dA":·,"dB":·,"sys":·,"X":mat}` → `{"rows":[[…]…]}`: not needed by the checkers; returns the
   model's partial transpose entrywise as rationals `[[re_num,re_den,im_num,im_den]…]` (row-major) so that the harness
   can compare it with `toqito.channels.partial_transpose` / `picos.partial_transpose` on labelled inputs.
 
